@@ -331,9 +331,10 @@ def finish(pid, tier, level, obs, results, *, t0, funcs, bounds, stubs, assumpti
             inconclusive += 1
             problems.append(f"{ob.name}: {status}: {r.get('note')}" + (("\n" + r["trace"]) if r.get("trace") else ""))
     # replay files + protocol lines
-    os.makedirs(os.path.join(ROOT, "replays"), exist_ok=True)
+    rdir = "replays" if ("--no-evidence" not in sys.argv and not os.environ.get("VERIF_NO_EVIDENCE")) else os.path.join("replays", "scratch")
+    os.makedirs(os.path.join(ROOT, rdir), exist_ok=True)
     import glob
-    for old in glob.glob(os.path.join(ROOT, "replays", f"{pid}-*.json")):
+    for old in glob.glob(os.path.join(ROOT, rdir, f"{pid}-*.json")):
         try:
             os.remove(old)
         except OSError:
@@ -343,7 +344,7 @@ def finish(pid, tier, level, obs, results, *, t0, funcs, bounds, stubs, assumpti
         payload = {"property": pid, "obligation": ob.name, "cex": r.get("cex"), "replay": r.get("replay"),
                    "finding_key": r.get("finding_key"), "tier": tier}
         dg = hashlib.sha1(json.dumps(payload, sort_keys=True, default=str).encode()).hexdigest()[:12]
-        path = os.path.join(ROOT, "replays", f"{pid}-{dg}.json")
+        path = os.path.join(ROOT, rdir, f"{pid}-{dg}.json")
         with open(path, "w") as f:
             json.dump(payload, f, indent=1, default=str)
         if dg not in seen_digest:
@@ -387,9 +388,10 @@ def finish(pid, tier, level, obs, results, *, t0, funcs, bounds, stubs, assumpti
         cov.update(extra_cov)
     ev = {"property_id": pid, "tier": tier, "seed": seed, "level": level, "coverage": cov,
           "assumptions": assumptions, "wall_s": round(time.time() - t0, 2), "violations": cex_new}
-    os.makedirs(os.path.join(ROOT, "evidence"), exist_ok=True)
-    with open(os.path.join(ROOT, "evidence", f"{pid}.json"), "w") as f:
-        json.dump(ev, f, indent=1, default=str)
+    if "--no-evidence" not in sys.argv and not os.environ.get("VERIF_NO_EVIDENCE"):
+        os.makedirs(os.path.join(ROOT, "evidence"), exist_ok=True)
+        with open(os.path.join(ROOT, "evidence", f"{pid}.json"), "w") as f:
+            json.dump(ev, f, indent=1, default=str)
     for ln in lines:
         print(ln, flush=True)
     print(f"{pid} [{tier}]: obligations={n_prove} proved={proved} violations={cex_new} known={cex_known} "
